@@ -171,6 +171,39 @@ def numeric_check(chk, t, exprs, rng, nev, label):
     return worst, fams
 
 
+def dalitz_clause(chk, rng, nev):
+    """Three-body decays: the polar helicity angle of the helicity child of the (ij) resonance equals the
+    closed-form Dalitz-variable expression formulate_scattering_angle(i, j) the library provides."""
+    import sympy as sp
+    from ampform.kinematics.angles import compute_helicity_angles, formulate_scattering_angle
+    from ampform.kinematics.lorentz import create_four_momentum_symbols
+
+    can = topo.canonical(3)[0]  # 0(12)
+    worst, n = 0.0, 0
+    for (i, j, k) in ((1, 2, 3), (2, 3, 1), (1, 3, 2)):
+        t = topo.permute_leaves(topo.renumber_intermediate(can, {3: 9}), {0: k, 1: i, 2: j})
+        p = create_four_momentum_symbols(t)
+        angles = compute_helicity_angles(p, t)
+        sym = next(s for s in angles if s.name == f"theta_{i}^{i}{j}")
+        masses = {1: rng.choice([0.14, 0.5]), 2: rng.choice([0.94, 0.3]), 3: rng.choice([0.14, 0.0, 0.7])}
+        M = sum(masses.values()) + rng.uniform(0.3, 2.0)
+        P = numeric.gen_events(topo.tree_of(t), masses, M, nev, np.random.default_rng(rng.randrange(2**31)))
+        lib = numeric.eval_kin(angles[sym], P, cse=bool(rng.getrandbits(1)))
+        _, closed = formulate_scattering_angle(i, j)
+        vals = {"m_0": np.full(nev, M), **{f"m_{a}": np.full(nev, masses[a]) for a in (1, 2, 3)},
+                "m_12": numeric.inv_mass(P, (1, 2)), "m_13": numeric.inv_mass(P, (1, 3)), "m_23": numeric.inv_mass(P, (2, 3))}
+        syms = sorted(closed.free_symbols, key=str)
+        with np.errstate(all="ignore"):
+            cf = np.asarray(sp.lambdify(syms, closed.doit(), "numpy")(*[vals[s.name] for s in syms]), dtype=float)
+        d = np.where(np.sin(lib) > 1e-3, np.abs(lib - cf), 0)
+        worst = max(worst, float(np.nanmax(d)))
+        n += 1
+        chk.count(1)
+        if float(np.nanmax(d)) > 1e-7 or not np.all(np.isfinite(cf)):
+            chk.violation(f"dalitz-closed-form:theta_{i}{j}", f"helicity angle theta_{i}^{i}{j} from four-momenta differs from formulate_scattering_angle({i}, {j}) by {float(np.nanmax(d)):.3e}", {"pair": [i, j], "masses": masses, "M": M})
+    return worst, n
+
+
 def run(chk, replay=None):
     tier = chk.tier
     rng = random.Random(chk.seed)
@@ -264,6 +297,8 @@ def run(chk, replay=None):
     for t, exprs, label in drift_jobs + numeric_jobs:
         w, fams = numeric_check(chk, t, exprs, rng, 64, label)
         worst = max(worst, w)
+    dw, dn = dalitz_clause(chk, rng, 64)
+    chk.part("dalitz_closed_form", pairs=dn, worst_abs_diff=dw)
     if vacuous and not chk.violations and not drift_jobs:
         raise Machinery("vacuous: no angle was compared")
     chk.part("numeric", topologies=len(numeric_jobs), worst_abs_diff=worst, families=["generic", "massless", "near-threshold", "boosted"], cse=[True, False])
